@@ -126,6 +126,9 @@ def loops_strategy(draw, tier):
 
     loop = draw(st.sampled_from(["off_policy", "off_policy", "on_policy", "offline", "bandits", "ma_off", "ma_on"]))
     algo = draw(st.sampled_from(engine.stratum(LOOP_ALGOS[loop])))
+    rainbow_memories = loop == "off_policy" and "Rainbow" in LOOP_ALGOS[loop] and draw(st.integers(0, 3)) == 0
+    if rainbow_memories:
+        algo = "Rainbow"  # the only learner with n-step / prioritised memories: make sure every memory kind meets every env count
     if loop == "bandits":
         obs, envs = "vector", 0
     elif loop in ("ma_off", "ma_on"):
@@ -161,7 +164,7 @@ def loops_strategy(draw, tier):
             "envs": envs, "pop": pop, "seed": draw(st.integers(0, 999)), "ep_len": draw(st.integers(2, 7)),
             "evo_steps": evo, "max_steps": max_steps, "eval_steps": draw(st.sampled_from([None, 3, 5])),
             "batch_size": _batch_size(draw, loop, evo), "learn_step": draw(st.sampled_from([1, 2, 3, 4, 8])),
-            "learning_delay": draw(st.sampled_from([0, 0, 3])), "memory": draw(st.sampled_from(["uniform", "per", "nstep", "per+nstep"])),
+            "learning_delay": draw(st.sampled_from([0, 0, 3])), "memory": draw(st.sampled_from(["nstep", "nstep", "per+nstep", "per"] if rainbow_memories else ["uniform", "per", "nstep", "per+nstep"])),
             "evolve": draw(st.booleans()), "mut_probs": draw(st.sampled_from([[1, 0, 0, 0, 0], [0.2, 0.2, 0.2, 0.2, 0.2], [0, 0.5, 0, 0, 0.5], [0, 0, 1, 0, 0]])),
             "checkpoint": draw(st.sampled_from([None, None, 5])), "target": draw(st.sampled_from([None, None, None, 1e9])),
             "resume": draw(st.sampled_from([0, 0, 1, 1, 2])) if loop in ("on_policy", "ma_on") else 0}
